@@ -36,6 +36,10 @@ def run(prog, R, tier="quick", only_rule=None):
     c19.c19e(prog, R, rid="C15.d")
     # snapshots taken before keep their full view: readers pin one SuperVersion, also for the blob side of a scan
     c02.c02d(prog, R, rid="C15.e")
+    # "later writes are unaffected": the memtable clear() installs gets a fresh id (flush registration removes sealed
+    # memtables by id)
+    from rules.props import c06
+    c06.c06j(prog, R, rid="C15.f")
 
 
 def c15a(prog, R):
